@@ -644,3 +644,11 @@ func fwrEnvKey(n fwrNode, p fwrPeer) string {
 	sort.Strings(g)
 	return fmt.Sprintf("%v|%v|%v|%s|%v|%v|%v|%s", n.Networks, n.Unsafe, n.DefaultLocalAny, p.Name, g, p.Networks, p.Unsafe, p.Issuer)
 }
+
+func fwrNets(ss ...string) []netip.Prefix {
+	out := make([]netip.Prefix, len(ss))
+	for i, s := range ss {
+		out[i] = netip.MustParsePrefix(s)
+	}
+	return out
+}
